@@ -260,13 +260,35 @@ Qed.
 
 (** ** the rows of the grid-level kick are [krow]s of the stored offsets *)
 
+Lemma in_range_true n i : 0 <= i < n -> in_range n i = true.
+Proof. intros H. unfold in_range. destruct (Z.leb_spec 0 i); destruct (Z.ltb_spec i n); cbn [andb]; lia || reflexivity. Qed.
+Lemma in_range_false n i : i < 0 \/ n <= i -> in_range n i = false.
+Proof. intros H. unfold in_range. destruct (Z.leb_spec 0 i); destruct (Z.ltb_spec i n); cbn [andb]; lia || reflexivity. Qed.
+
+(** a table row reads its input at cells 0 <= ys < n only *)
+Lemma row_out_restrict n it E (r : Z -> Qc) y :
+  0 < n -> row_out n it E r y = row_out n it E (fun ys => if in_range n ys then r ys else 0%Qc) y.
+Proof.
+  intros Hn. unfold row_out. f_equal. apply map_ext. intros j. cbv zeta.
+  set (ys := wrap32 _). destruct (Z.ltb_spec ys n) as [L|G]; [|reflexivity].
+  assert (0 <= ys) by (unfold ys, wrap32; apply Z.mod_pos_bound; reflexivity).
+  rewrite in_range_true by lia. reflexivity.
+Qed.
+
+Lemma krow_ext n it o (r r' : Z -> Qc) y : (forall u, r u = r' u) -> krow n it o r y = krow n it o r' y.
+Proof.
+  intros H. unfold krow. destruct (_ && _)%bool; [|reflexivity].
+  unfold row_out. f_equal. apply map_ext. intros j. cbv zeta. rewrite H. reflexivity.
+Qed.
+
 Lemma apply_y_is_krow n nb it (offs D : Z -> Qc) b x y :
   valid_it it -> 0 < n -> 0 < nb -> 0 <= b < nb -> 0 <= x < n -> 0 <= y < n ->
   apply_y n nb it (updateSM n it offs) D (didx n b x y) =
-  krow n it (offs (b * n + x)) (fun ys => D (didx n b x ys)) y.
+  krow n it (offs (b * n + x)) (rowD n D b x) y.
 Proof.
   intros Hv Hn Hnb Hb Hx Hy. destruct (valid_it_range it Hv) as [Hi Hc].
-  rewrite krow_in by lia.
+  rewrite krow_in by lia. unfold rowD.
+  rewrite <- (row_out_restrict n it _ (fun ys => D (didx n b x ys)) y Hn).
   unfold apply_y. rewrite didx_flat.
   destruct (cell_decode n b x y) as (-> & -> & ->); try lia.
   unfold apply_y_cell, row_out. f_equal. apply map_ext_in. intros j Hj.
@@ -277,6 +299,25 @@ Proof.
   reflexivity.
 Qed.
 
+(** the same for a kick along x (drift): the columns are [krow]s of the per-energy offsets *)
+Lemma apply_x_is_krow n nb it (offs D : Z -> Qc) b x y :
+  valid_it it -> 0 < n -> 0 < nb -> 0 <= b < nb -> 0 <= x < n -> 0 <= y < n ->
+  apply_x n nb it (updateSM n it offs) D (didx n b x y) =
+  krow n it (offs y) (colD n D b y) x.
+Proof.
+  intros Hv Hn Hnb Hb Hx Hy. destruct (valid_it_range it Hv) as [Hi Hc].
+  rewrite krow_in by lia. unfold colD.
+  rewrite <- (row_out_restrict n it _ (fun xs => D (didx n b xs y)) x Hn).
+  unfold apply_x. rewrite didx_flat.
+  destruct (cell_decode n b x y) as (-> & -> & ->); try lia.
+  unfold apply_x_cell, row_out. f_equal. apply map_ext_in. intros j Hj.
+  unfold zrange in Hj. apply in_map_iff in Hj. destruct Hj as (k & <- & Hk). apply in_seq in Hk.
+  unfold updateSM, hidx_x.
+  rewrite (div_lin y it (Z.of_nat k)) by lia.
+  rewrite (mod_lin y it (Z.of_nat k)) by lia.
+  reflexivity.
+Qed.
+
 (** ** force law with the offsets the code stores (C05.1) *)
 
 Theorem wake_kick_force_law_eff n nb it (wp old : Z -> Qc) (t xc : Qc) (D : Z -> Qc) b x a bb :
@@ -284,7 +325,7 @@ Theorem wake_kick_force_law_eff n nb it (wp old : Z -> Qc) (t xc : Qc) (D : Z ->
   let i := b * n + x in
   let ow := wake_update nb n wp old i in
   let orf := rf_offsets n t xc i in
-  let r := fun y => D (didx n b x y) in
+  let r := rowD n D b x in
   suppQ r a bb ->
   row_fits n it ow a bb ->
   row_fits n it orf (a - shift_hi n it ow) (bb - shift_lo n it ow) ->
@@ -309,7 +350,7 @@ Theorem wake_kick_force_law n nb it (wp old : Z -> Qc) (t xc : Qc) (D : Z -> Qc)
   valid_it it -> 2 <= it -> 0 < n < 2 ^ 30 -> 0 < nb -> 0 <= x < n ->
   let ow := wake_update nb n wp old x in
   let orf := rf_offsets n t xc x in
-  let r := fun y => D (didx n 0 x y) in
+  let r := rowD n D 0 x in
   suppQ r a bb ->
   row_fits n it ow a bb ->
   row_fits n it orf (a - shift_hi n it ow) (bb - shift_lo n it ow) ->
